@@ -626,6 +626,29 @@ def validate(pg, sc, plan, rule, cr, allow_swap=True):
     raise err
 
 
+def _generated_binding_ids(pg):
+    """ids of every binding introduced inside the generated evaluation code (let patterns, closure parameters, match arms)"""
+    if getattr(pg, '_gen_ids', None) is not None:
+        return pg._gen_ids
+    ids = set()
+    root = pg.p.run_main if getattr(pg.p, 'run_main', None) is not None else (pg.p.run_fn or {}).get('tree')
+    if root is not None:
+        for x, _ in walk(root):
+            k = x.get('k')
+            pats = []
+            if k == 'let':
+                pats.append(x['p'])
+            elif k == 'closure':
+                pats += x.get('ps', [])
+            elif k == 'match':
+                pats += [a['p'] for a in x['arms']]
+            for pt in pats:
+                for bb in pat_bindings(pt):
+                    ids.add(bb['id'])
+    pg._gen_ids = ids
+    return ids
+
+
 def _validate_seq(pg, sc, plan, rule, seq, cr):
     uf = UF()
     env = {}            # spec var -> binding id (representative via uf)
@@ -647,11 +670,18 @@ def _validate_seq(pg, sc, plan, rule, seq, cr):
         if uf.find(env[v]) != uf.find(bid):
             raise Mismatch('an occurrence of `%s` refers to a different binding than the one the rule binds' % v)
 
+    gen_ids = _generated_binding_ids(pg)
+
     def check_refs(e):
         for n, bid in locals_in(e):
             if n in env:
                 if uf.find(env[n]) != uf.find(bid):
                     raise Mismatch('expression `%s` refers to a different binding of `%s`' % (expr_text(cr, e), n))
+            elif bid in gen_ids and bid not in bound_ids:
+                # an identifier of the rule text that is no rule variable is a constant of the rule (static, const, captured local):
+                # it must not resolve to a local variable that the generated code introduces
+                raise Mismatch('the identifier `%s` of the rule text resolves to a local variable of the generated code (a captured local / '
+                               'constant of that name is shadowed)' % n)
 
     def match_expr(e, txt, what, key=False):
         # lookup keys are wrapped into `.clone()` by the generator: compare modulo clones there; everywhere else literally
